@@ -193,12 +193,13 @@ def continueLib (st : State) (t : Nat) (r : Resume) : Option (State × Out) :=
       match r with
       | .none => aexitAfterChk st t g ev
       | e =>
-        -- an exception broke through the shielded checkpoint: `except BaseException as exc`
-        match exitScope st t (st.groups g).scope e with
-        | none => none
-        | some (st, x) =>
-          let st := st.setGroup g (fun x => { x with exited := true, exceptions := [] })
-          some (st.setTask t (fun x => { x with lib := .none }), .done (exitToOut e x))
+        -- only a native cancellation can break through the shielded checkpoint; it is handled
+        -- like one arriving in the wait loop: cancel the group, remember it, go on to wait
+        if e.isCancelledError then
+          let st := cancelScope st (st.groups g).scope false
+          let ev' := if ev = .none ∨ (ev.isCancelledError ∧ e ≠ .one .cancelAnyio) then e else ev
+          aexitAfterChk st t g ev'
+        else none
   | .aexitWait g ws ev =>
     let st := st.setGroup g (fun x => { x with onCompleted := none })
     match r with
@@ -292,6 +293,14 @@ def runTask (st : State) (t : Nat) : Option (State × Out) :=
       some (st.schedule (.taskDone t), .done e)
   | _, _ => continueLib st t r
 
+/-- API discipline: the scope of a task group or of a task handle is entered and left only by
+`TaskGroup.__aenter__/__aexit__` and by `TaskHandle._run_coro`, never by user code -/
+def isGroupScope (st : State) (s : Nat) : Bool :=
+  (List.range st.nGroups).any (fun g => (st.groups g).scope = s)
+
+def isHandleScope (st : State) (s : Nat) : Bool :=
+  (List.range st.nTasks).any (fun t => (st.tasks t).hscope = some s)
+
 def dueTimers (st : State) : List Handle :=
   (st.timers.filter (fun p => p.1 ≤ st.now)).map (·.2)
 
@@ -330,7 +339,8 @@ def step (st : State) : Ev → Option (State × Out)
     match st.running with
     | none => none
     | some t =>
-      if !(st.scopes s).exists_ then none else
+      if !(st.scopes s).exists_ ∨ isGroupScope st s ∨ isHandleScope st s
+          ∨ (st.tasks t).lib ≠ .none then none else
       match enterScope st t s with
       | none => some (st, .rterr)
       | some st => some (st, .none)
@@ -338,7 +348,7 @@ def step (st : State) : Ev → Option (State × Out)
     match st.running with
     | none => none
     | some t =>
-      if (st.tasks t).lib ≠ .none then none else
+      if (st.tasks t).lib ≠ .none ∨ isGroupScope st s ∨ isHandleScope st s then none else
       match exitScope st t s ev with
       | none => some (st, .rterr)
       | some (st, r) => some (st, .exit r)
@@ -483,7 +493,7 @@ def step (st : State) : Ev → Option (State × Out)
     | none => none
     | some t =>
       if (st.tasks t).lib ≠ .none then none else
-      if (st.tasks t).hscope.isSome ∧ (st.tasks t).scope ≠ (st.tasks t).hscope then none else
+      if (st.tasks t).scope ≠ (st.tasks t).hscope then none else
       match finishTask st t o with
       | none => none
       | some st => some (st, .none)
